@@ -33,6 +33,15 @@
    * Channels (`try_send`, `try_recv`, `len`) and atomics are not lock events (they
      never block). `std::thread::sleep` in the retry loop is the marker `sleep`,
      checked to happen with no lock held.
+   * Only panic-free paths are modelled. (`try_sync` clears the flag with a plain store,
+     not a drop guard: a panic inside `sync` would leave it set. Outside this model.)
+   * Out of scope, as in the statement of C09: a thread that keeps a `sync::Iter` /
+     `EntryRef` (which keeps a shard read lock across user code) while calling other
+     cache operations; user callbacks (`Clone`/`Eq`/`Hash`/`Drop` of keys and values run
+     under shard locks, values may be dropped under `D`/`S`) calling back into the cache.
+   * The verification hooks (`verif_snapshot`: D, then shard by shard M with N/T inside,
+     then S; `verif_frequency`: S; `verif_set_clock`: C) also respect the order; they are
+     not rows of the table.
 -/
 import MiniMoka.Basic
 
@@ -269,25 +278,28 @@ dirty ⇒ dq:`move_to_back_ao_in_deque` → `access_order_q_node` (N) and
 dq:`move_to_back_wo_in_deque` → `write_order_q_node` (N). -/
 def trySkipUpdated : Prog Cls := withL M (opt (seqs [nAcc, nAcc]))
 
-/-- bc:`Inner::admit`: `while` over the probation deque (finite, not constant-bounded):
+/-- The size-aware admission function of `Inner` in bc (the associated `fn` documented
+"Performs size-aware admission"; called from `handle_upsert`): `while` over the
+probation deque (finite, not constant-bounded):
 `cache.get(vic_key)` (M) + `filter` (pointer comparison; no lock); the guard lives
 through the `if let` body (`policy_weight` is an atomic; `freq` is the already held
 `S` read guard passed by reference). -/
-def admitLoop : Prog Cls := .star (leaf M)
+def victimScan : Prog Cls := .star (leaf M)
 
 /-- bc:`Inner::handle_upsert`.
  * already admitted: dq:`move_to_back_ao` (N), dq:`move_to_back_wo` (N);
  * `cache.get(&kh.key).map_or(..ptr_eq..)` (M, no lock inside); not current ⇒ return;
  * enough capacity ⇒ `handle_admit`;
  * too big ⇒ `cache.remove_if` (M; closure is a pointer comparison);
- * `admit`; Admitted ⇒ for each victim `cache.remove_if` (M; pointer comparison) and, if
-   removed, `handle_remove`; then `handle_admit`; Rejected ⇒ `cache.remove_if` (M). -/
+ * the admission function (`victimScan`); result `Admitted` ⇒ for each victim
+   `cache.remove_if` (M; pointer comparison) and, if removed, `handle_remove`; then
+   `handle_admit`; result `Rejected` ⇒ `cache.remove_if` (M). -/
 def handleUpsert : Prog Cls :=
   .alt (seqs [nAcc, nAcc])
     (seqs [leaf M,
       opt (.alt handleAdmit
         (.alt (leaf M)
-          (seqs [admitLoop,
+          (seqs [victimScan,
             .alt (seqs [.star (seqs [leaf M, opt handleRemove]), handleAdmit])
                  (leaf M)])))])
 
